@@ -34,17 +34,19 @@ def run(ctx, rep):
 
 def triangle_edges(prog, rep):
     si = prog.method1(TRI, "scanline_intersection", None)
-    cfg = CFG(si.body)
+    # path summaries (helpers introduced by an edit inlined, calls on the local scanline recorded): which edges are
+    # intersected with the row on the colinear / non-colinear paths
     sets = {}
-    for path in enum_paths(cfg, 0, None, 128):
-        po = Origins(si, path=path)
-        pairs = []
-        unknown = False
-        for k, b in enumerate(path):
-            t = si.body["blocks"][b]["t"]
-            if t and t["k"] == "call" and t["f"].get("name") == "bresenham_intersection":
-                a = strip_refs(po.term_args(k)[1])
-                m = match(a, ("call", "*Line::new", "_", ("?a", "?b")))
+    area = ("call", "*Triangle::area_doubled", "_", (P(1, "self"),))
+    try:
+        summs = Paths(prog, inline=lambda g: prog.is_new(g), local_effects=True).of(si)
+    except Unsupported as e:
+        summs = []
+    for sm in summs:
+        pairs, unknown = [], False
+        for e in sm.effects:
+            if e[0] == "call" and e[1][1].split("::")[-1] == "bresenham_intersection" and len(e[1][3]) == 2:
+                m = match(strip_refs(e[1][3][1]), ("call", "*Line::new", "_", ("?a", "?b")))
                 if m is None:
                     unknown = True
                     continue
@@ -53,12 +55,9 @@ def triangle_edges(prog, rep):
                 if not isinstance(ia, int) or not isinstance(ib, int):
                     unknown = True
         colinear = None
-        for d, lit in path_conditions(si, path, po):
-            d = fold(strip_refs(d))
-            if match(d, ("bin", "Eq", ("call", "*Triangle::area_doubled", "_", (P(1, "self"),)), ("const", 0))) is not None:
-                colinear = lit_truth(lit)
-            if match(d, ("bin", "Ne", ("call", "*Triangle::area_doubled", "_", (P(1, "self"),)), ("const", 0))) is not None:
-                colinear = not lit_truth(lit)
+        for fct in sm.facts:
+            if fct[0] in ("eq", "ne") and ((match(fct[1], area) is not None and fct[2] == ("const", 0)) or (match(fct[2], area) is not None and fct[1] == ("const", 0))):
+                colinear = fct[0] == "eq"
         sets.setdefault(colinear, set()).add((tuple(sorted(pairs, key=str)), unknown))
     want_full = ((0, 1), (0, 2), (1, 2))
     ok = sets.get(False) == {(want_full, False)} and sets.get(True) == {(((0, 2),), False)} and set(sets) == {True, False}
